@@ -830,6 +830,33 @@ where
             return;
         }
 
+        // This op may be stale: after it was queued, the key may have been
+        // invalidated, rejected or evicted (and even re-inserted). Admit the entry only
+        // if the hash map still holds an entry of the same `EntryInfo`, and remember
+        // whether it still holds this very `ValueEntry`.
+        let (is_current_info, is_current_entry, map_key) = match self.cache.get(&kh.key) {
+            Some(e) => (
+                TrioArc::ptr_eq(e.entry_info(), entry.entry_info()),
+                TrioArc::ptr_eq(&*e, &entry),
+                Some(Arc::clone(e.key())),
+            ),
+            None => (false, false, None),
+        };
+        if !is_current_info {
+            return;
+        }
+        // Let the deque nodes share the key object held by the hash map (this op may
+        // carry another, equal, key object if it was created by an update).
+        let kh = KeyHash::new(map_key.unwrap_or_else(|| Arc::clone(&kh.key)), kh.hash);
+        // Removes the candidate from the hash map, unless a newer value (which has its
+        // own pending write op) has replaced it.
+        let remove_candidate = || {
+            if is_current_entry {
+                self.cache
+                    .remove_if(&kh.key, |_, v| TrioArc::ptr_eq(v, &entry));
+            }
+        };
+
         if self.has_enough_capacity(new_weight, counters) {
             // There are enough room in the cache (or the cache is unbounded).
             // Add the candidate to the deques.
@@ -840,7 +867,7 @@ where
         if let Some(max) = self.max_capacity {
             if new_weight as u64 > max {
                 // The candidate is too big to fit in the cache. Reject it.
-                self.cache.remove(&Arc::clone(&kh.key));
+                remove_candidate();
                 return;
             }
         }
@@ -857,8 +884,13 @@ where
             } => {
                 // Try to remove the victims from the cache (hash map).
                 for victim in victim_nodes {
+                    // Remove the victim only if the hash map still holds the entry
+                    // this node belongs to (not a re-inserted entry of the same key).
+                    let vic_elem = unsafe { &victim.as_ref().element };
                     if let Some((_vic_key, vic_entry)) =
-                        self.cache.remove(unsafe { victim.as_ref().element.key() })
+                        self.cache.remove_if(vic_elem.key(), |_, v| {
+                            std::ptr::eq(&**v.entry_info(), vic_elem.entry_info())
+                        })
                     {
                         // And then remove the victim from the deques.
                         Self::handle_remove(deqs, vic_entry, counters);
@@ -877,7 +909,7 @@ where
             AdmissionResult::Rejected { skipped_nodes: s } => {
                 skipped_nodes = s;
                 // Remove the candidate from the cache (hash map).
-                self.cache.remove(&Arc::clone(&kh.key));
+                remove_candidate();
             }
         };
 
@@ -931,7 +963,12 @@ where
                 next_victim = DeqNode::next_node_ptr(victim);
                 let vic_elem = &unsafe { victim.as_ref() }.element;
 
-                if let Some(vic_entry) = cache.get(vic_elem.key()) {
+                // A node whose key now maps to another `EntryInfo` belongs to an
+                // invalidated entry (its removal is still queued): skip it.
+                if let Some(vic_entry) = cache
+                    .get(vic_elem.key())
+                    .filter(|e| std::ptr::eq(&**e.entry_info(), vic_elem.entry_info()))
+                {
                     victims.add_policy_weight(vic_entry.policy_weight());
                     victims.add_frequency(freq, vic_elem.hash());
                     victim_nodes.push(victim);
